@@ -169,20 +169,36 @@ def run(ctx):
         sample = [p for p in sample if p[0] <= 3] + ctx.rng.sample([p for p in sample if p[0] > 3], 300)
     csl = toastlat.coordsystems()
     psis = {n_: toastlat.psi_for(t, n_) for n_, _c in csl}
+    # ... and each reported tile then lives on: it is shown to the library's own consumers of tiles (footprint filters,
+    # area, pixel grid) and must still be the same tile afterwards; finally its caller, who owns it, overwrites it in place,
+    # which must not reach any tile reported later (state shared between what different calls return)
+    cons = toastlat.library_consumers()
+    refvecs = {n_: {p_: (toastlat.tile_vecs(reals[n_][p_]).copy(), bool(reals[n_][p_].increasing)) for p_ in sample} for n_, _c in csl}
+
+    def lives_on(tile, rv, route, pos, csname):
+        toastlat.hand_to_consumers(tile, cons)
+        d = float(np.abs(toastlat.tile_vecs(tile) - rv).max())
+        ctx.count()
+        if d > XTOL:
+            ctx.violation("C04:route:%s:after-consumers" % route, "tile %s [%s] from %s no longer has the corners of the enumerated tile (%.2e) once the library's own "
+                          "footprint filters / area / pixel-grid functions have looked at it" % (pos, csname, route, d), {"pos": pos, "cs": csname, "route": route})
+        toastlat.scribble(tile)
     for pos in sample:
         order = csl if ctx.rng.random() < 0.5 else csl[::-1]
         for csname, cs in order:
             real = reals[csname]
             psi = psis[csname]
             if True:
+                rv, rinc = refvecs[csname][pos]
                 ref = real[pos]
-                rv = toastlat.tile_vecs(ref)
                 one = toast.create_single_tile(Pos(*pos), coordsys=cs)
                 ctx.count()
                 d = float(np.abs(toastlat.tile_vecs(one) - rv).max())
                 worst["route"] = max(worst["route"], d)
-                if d > XTOL or bool(one.increasing) != bool(ref.increasing) or tuple(one.pos) != pos:
+                if d > XTOL or bool(one.increasing) != rinc or tuple(one.pos) != pos:
                     ctx.violation("C04:route:single", "create_single_tile(%s) [%s] differs from enumeration (%.2e, increasing %s vs %s)" % (pos, csname, d, one.increasing, ref.increasing), {"pos": pos, "cs": csname})
+                else:
+                    lives_on(one, rv, "single", pos, csname)
                 cen = psi.centre(*pos)
                 lon, lat = lattice.vec_to_lonlat(cen)
                 try:
@@ -195,8 +211,10 @@ def run(ctx):
                     ctx.violation("C04:route:lookup", "point lookup of the centre of tile %s [%s] returns tile %s" % (pos, csname, tuple(lk.pos)), {"pos": pos, "cs": csname})
                 else:
                     d = float(np.abs(toastlat.tile_vecs(lk) - rv).max())
-                    if d > XTOL or bool(lk.increasing) != bool(ref.increasing):
+                    if d > XTOL or bool(lk.increasing) != rinc:
                         ctx.violation("C04:route:lookup", "tile %s [%s] from point lookup has different corners than enumeration (%.2e)" % (pos, csname, d), {"pos": pos, "cs": csname})
+                    else:
+                        lives_on(lk, rv, "lookup", pos, csname)
     # seeded deep positions (corners and orientation through single-tile construction vs psi)
     def special(n):
         h = 2 ** (n - 1)
@@ -212,7 +230,20 @@ def run(ctx):
             x, y = ctx.rng.randrange(2 ** n), ctx.rng.randrange(2 ** n)
         csname, cs = ctx.rng.choice(toastlat.coordsystems())
         psi = toastlat.psi_for(t, csname)
-        one = toast.create_single_tile(Pos(n, x, y), coordsys=cs)
+        # positions as they come out of user code: Python ints, or NumPy integers of any width that holds the value (rows of
+        # an index table, loop variables of np.arange ...)
+        rep = ctx.rng.choice(["py", "py", "i64", "i32", "narrow", "unsigned"])
+        if rep == "py":
+            pn, px, py_ = n, x, y
+        elif rep == "i64":
+            pn, px, py_ = np.int64(n), np.int64(x), np.int64(y)
+        elif rep == "i32":
+            pn, px, py_ = np.int32(n), np.int32(x), np.int32(y)
+        elif rep == "narrow":
+            pn, px, py_ = np.int8(n), np.int32(x), np.int32(y)
+        else:
+            pn, px, py_ = np.uint8(n), np.uint32(x), np.uint32(y)
+        one = toast.create_single_tile(Pos(pn, px, py_), coordsys=cs)
         exp = np.array(psi.corners(n, x, y))
         err = float(np.abs(toastlat.tile_vecs(one) - exp).max())
         ctx.count()
@@ -220,7 +251,7 @@ def run(ctx):
         worst["corner"] = max(worst["corner"], err)
         tol_deep = min(TOL, 0.02 * 2 * np.pi / 2 ** n)          # a fiftieth of a tile width, for the deepest tiles
         if err > tol_deep or bool(one.increasing) != lattice.inc(n, x, y):
-            ctx.violation("C04:single:deep", "create_single_tile((%d, %d, %d)) [%s] is %.2e away from the subdivision of the documented layout" % (n, x, y, csname, err), {"pos": (n, x, y), "cs": csname})
+            ctx.violation("C04:single:deep", "create_single_tile((%d, %d, %d)) [%s, integers given as %s] is %.2e away from the subdivision of the documented layout" % (n, x, y, csname, rep, err), {"pos": (n, x, y), "cs": csname, "ints": rep})
         if n < 30:
             # nesting at this depth: the four children tile the parent (shared corners / edge midpoints identical)
             ov = toastlat.tile_vecs(one)
